@@ -65,6 +65,17 @@ def programs(tier):
     menu2 = [["start", "a"], ["end", "b"]]
     out.append(("plain-feasible", P(fixed("a", 1), fixed("b", 1), H=2), {}, [["start", "a"]], 5))
     out.append(("plain-feasible/debug", P(fixed("a", 1), fixed("b", 1), H=2), {"debug": True}, [["start", "a"]], 3))
+    # random initial values: another option that changes how models are found, never which ones exist
+    out.append(("plain-feasible/random_values", P(fixed("a", 1), fixed("b", 1), H=2), {"random_values": True}, [["start", "a"]], 3))
+    # the variable behind the objective itself as the variable to move away from, after an optimisation cut short ...
+    ia = new("IndicatorFromMathExpression", "i", name="i", expression=E(["start", "a"]))
+    out.append(("max-indicator/incremental/max_iter=1", P(fixed("a", 1), ia, new("ObjectiveMaximizeIndicator", "o", target=R("i")), H=3), {"max_iter": 1}, [["ind", "i"]], 4))
+    out.append(("min-indicator/incremental", P(fixed("a", 1), ia, new("ObjectiveMinimizeIndicator", "o", target=R("i"), weight=1), H=3), {}, [["ind", "i"]], 4))
+    # ... and one of two objectives' own variable (the weighted sum is what was optimised, not this one)
+    ib = new("IndicatorFromMathExpression", "i2", name="i2", expression=E(["start", "b"]))
+    out.append(("two-objectives/own-variable", P(fixed("a", 2), fixed("b", 2), worker("w"), req("a", "w"), req("b", "w"), ia, ib,
+                                                 new("ObjectiveMinimizeIndicator", "o1", target=R("i"), weight=1), new("ObjectiveMinimizeIndicator", "o2", target=R("i2"), weight=2), H=5),
+                {}, [["ind", "i"]], 4))
     # a solver built for a given logic goes through another construction path (z3.SolverFor)
     out.append(("one-schedule/logics", P(fixed("a", 2), H=2), {"logics": "QF_LIA"}, [["start", "a"]], 4))
     out.append(("two-schedules/logics", P(fixed("a", 1), H=2), {"logics": "QF_IDL"}, [["start", "a"]], 5))
@@ -165,8 +176,30 @@ def job(j):
                             record(h, obs, (len(obs), "second solver on the same problem reports no solution"))
                         elif r2 and hs.timing_of_solution(program, r2) not in p.timings:
                             record(h, obs, (len(obs), "second solver on the same problem returned a schedule outside the admitted set"))
+                        elif r2 and objective is not None and not interrupted:
+                            # a fresh solver knows nothing of what the first one excluded: it returns an optimum of the problem
+                            kind_, fn_ = objective
+                            vals_ = [fn_(l_) for l_ in leaves]
+                            best_ = min(vals_) if kind_ == "min" else max(vals_)
+                            got_ = [fn_(l_) for l_ in p.timings[hs.timing_of_solution(program, r2)]]
+                            if best_ not in got_:
+                                record(h, obs, (len(obs), f"second solver on the same problem returned objective {sorted(set(got_))} but {best_} is achievable"))
                     except Exception as ex_:
                         record(h, obs, (len(obs), f"second solver on the same problem raised {type(ex_).__name__}: {str(ex_)[:80]}"))
+        # exhaust, re-initialise, enumerate again: solve, k exclusions of a variable's value, initialize, solve, j further
+        # solutions - deeper than the full enumeration above reaches
+        if j.get("reinit") and menu:
+            for k in range(1, 4):
+                for jn in range(0, 4):
+                    h = [["solve"]] + [["another_for", menu[0]]] * k + [["initialize"], ["solve"]] + [["another"]] * jn
+                    obs, env, sv, b = hs.run_history(program, h, solver_kw=skw, leaves=leaves, steer="lazy")
+                    res["runs"] += 1
+                    res["calls"] += len(h)
+                    res["outcomes"].add(repr([(o["kind"], o.get("timing")) for o in obs]))
+                    bad, p = judge(program, leaves, obs, objective, interrupted)
+                    res["states"].add((p.key(), sv._initialized, "reinit"))
+                    if bad:
+                        record(h, obs, bad)
         # side activities: every history up to depth 3 with ONE read-only report of the solver, or the declaration
         # of another problem, inserted at every position after the first call and before the last one - none of them
         # may change what the calls answer
@@ -279,6 +312,7 @@ def main(tier):
     for i, (lab, program, skw, menu, depth) in enumerate(programs(tier)):
         js.append({"program": program, "solver": skw, "menu": menu, "depth": depth if tier == "thorough" else min(depth, 4),
                    "family": lab, "tier": tier, "want_sample": i % 4 == 0,
+                   "reinit": lab in ("plain-feasible", "plain-optional", "two-schedules/logics", "min-makespan/optimize", "two-objectives/optimize-lex"),
                    "side": lab in ("plain-feasible", "plain-feasible/debug", "plain-optional", "min-makespan/incremental/max_iter=None", "min-makespan/optimize",
                                    "two-objectives/incremental", "one-schedule/logics")})
     js = common.rotate(js)
